@@ -109,7 +109,7 @@ def fun_txt(k, f, N):
         ps.append({'val': 'int %s', 'ref': 'int &%s', 'cref': 'const int &%s'}[kind] % N[pid])
     body = f['body']
     assert body[0] == 'block'
-    return 'int f%d(%s)\n%s' % (k, ', '.join(ps), s_txt(body, N, ''))
+    return '%s f%d(%s)\n%s' % ('void' if f.get('void') else 'int', k, ', '.join(ps), s_txt(body, N, ''))
 
 
 def fun_sx(f):
@@ -119,7 +119,7 @@ def fun_sx(f):
 
 
 class RandProg:
-    """random well-typed programs: every function returns int; calls go to earlier functions only"""
+    """random well-typed programs: functions return int or nothing (void functions are called as statements only); calls go to earlier functions only"""
     def __init__(self, rng, nfun):
         self.r = rng
         self.N = Names()
@@ -164,8 +164,9 @@ class RandProg:
             return ('asg', self.lval(env, d - 1), self.exp(env, d - 1), r.choice(['=', ':=', '+=', '-=', '*=', '/=', '%=', '|=', '&=', '^=', '<<=', '>>=']))
         if c < 0.86:
             return ('inc', r.random() < 0.5, self.lval(env, 0), r.choice(['++', '--']))
-        if env['k'] > 0:
-            f = r.randrange(env['k'])
+        valued = [q for q in range(env['k']) if not self.funs[q].get('void')]
+        if valued:
+            f = r.choice(valued)
             args = []
             for pid, kind in self.funs[f]['params']:
                 if kind == 'val':
@@ -175,8 +176,21 @@ class RandProg:
             return ('call', f, args)
         return ('lit', 2)
 
+    def call_stm(self, env):
+        r = self.r
+        f = r.randrange(env['k'])
+        args = []
+        for pid, kind in self.funs[f]['params']:
+            if kind == 'val':
+                args.append(self.exp(env, 1))
+            else:
+                args.append(self.lval(env, 0) if kind == 'ref' else ('v', r.choice(list(range(6)) + env['all'])))
+        return ('expr', ('call', f, args))
+
     def stm(self, env, d):
         r = self.r
+        if env['k'] > 0 and r.random() < 0.12:
+            return self.call_stm(env)
         c = r.random()
         if d <= 0 or c < 0.3:
             return ('expr', self.exp(env, 2))
@@ -219,8 +233,9 @@ class RandProg:
             locs.append((lid, self.exp(env, 1, pure=True)))
             env['all'].append(lid)
             env['mut'].append(lid)
-        body = ('block', locs, [self.stm(env, r.choice([1, 2, 2, 3])) for _ in range(r.randrange(1, 5))] + [('ret', self.exp(env, 1))])
-        return dict(params=params, body=body)
+        void = r.random() < 0.25
+        body = ('block', locs, [self.stm(env, r.choice([1, 2, 2, 3])) for _ in range(r.randrange(1, 5))] + [('expr' if void else 'ret', self.exp(env, 1))])
+        return dict(params=params, body=body, void=void)
 
     def text(self):
         return GLOBAL_DECL + '\n'.join(fun_txt(k, f, self.N) for k, f in enumerate(self.funs))
